@@ -5,10 +5,25 @@
    What is proved below are the layers of its refinement chain that are
    finished; the composed statement is therefore PARTIAL and the evidence file
    says so.  The executable model Model/Reader.v (rd_all) is tied to the
-   implementation by the correspondence check on every run. *)
+   implementation by the correspondence check on every run.
+
+   Finished layers:
+     1. fixed-width integer fields (both byte orders);
+     5. raw data: the decoders of Model/Layout.v invert the raw data ENCODERS of
+        Proofs/LayoutProofs.v (enc_values, enc_strings, enc_chunk(s), enc_rows)
+        for every sized type incl. complex and timestamps, strings, contiguous
+        chunks (one chunk with or without final-chunk override; all chunks of a
+        segment; read_segment_chunks for the contiguous layout) and interleaved
+        rows (read_interleaved; read_segment_chunks for the interleaved layout),
+        in both byte orders and with arbitrary bytes following.
+   Still open for the composed statement: layers 2-4 (lexing the segment
+   sequence by position, the object state machine, chunk counts from
+   _calculate_chunks) and 6 (receivers / hierarchy); layer 1's metadata part is
+   in Proofs/TokensRoundtrip.v. *)
 From Coq Require Import List ZArith.
 Import ListNotations.
-From NpTdms Require Import Base.Bytes Base.Res Model.Tokens Model.SegState Model.Layout Model.Reader.
+From NpTdms Require Import Base.Bytes Base.Res Model.Tokens Model.SegState Model.Layout Model.Reader
+     Proofs.LayoutProofs.
 Local Open Scope Z_scope.
 
 (* layer 1: every fixed-width integer field decodes to what was encoded, in
@@ -31,3 +46,165 @@ Proof. vm_compute. reflexivity. Qed.
 Print Assumptions unsigned_field_roundtrip.
 Print Assumptions signed_field_roundtrip.
 Print Assumptions field_bytes_roundtrip.
+
+(* ---- layer 5: raw data ------------------------------------------------------ *)
+
+(* stored value bytes <-> canonical value bytes: an involution, for every type
+   (complex types swap each component), any length *)
+Theorem value_canon_store : forall e ty v, canon_value e ty (store_value e ty v) = v.
+Proof. exact store_then_canon. Qed.
+
+Theorem value_canon_length : forall e ty v, length (canon_value e ty v) = length v.
+Proof. exact canon_value_length. Qed.
+
+(* complete items of a byte buffer; trailing incomplete bytes are dropped *)
+Theorem items_roundtrip_tail : forall sz vs tail,
+    0 < sz -> Forall (fun v => blen v = sz) vs -> blen tail < sz ->
+    items sz (concat vs ++ tail) = vs.
+Proof. exact LayoutProofs.items_roundtrip_tail. Qed.
+
+(* TdmsSegmentObject.read_values on the encoding of [vs], any sized type
+   (NumPy types and TimeStamp), either byte order, anything following *)
+Theorem read_values_fixed_roundtrip : forall e o dt sz vs rest,
+    so_dtype o = Some dt -> tds_size dt = Some (Some sz) ->
+    Forall (fun v => blen v = sz) vs ->
+    read_values e o (Z.of_nat (length vs)) (enc_values e dt vs ++ rest) = Ok (vs, rest).
+Proof. exact LayoutProofs.read_values_fixed_roundtrip. Qed.
+
+Theorem read_values_timestamp_roundtrip : forall e o vs rest,
+    so_dtype o = Some T_TIME ->
+    Forall (fun v => blen v = 16) vs ->
+    read_values e o (Z.of_nat (length vs)) (enc_values e T_TIME vs ++ rest) = Ok (vs, rest).
+Proof. exact LayoutProofs.read_values_timestamp_roundtrip. Qed.
+
+(* String.read_values: offset table then the bytes *)
+Theorem read_values_string_roundtrip : forall e o ss rest,
+    so_dtype o = Some T_STRING ->
+    zsum (map blen ss) < 2 ^ 32 ->
+    read_values e o (Z.of_nat (length ss)) (enc_strings e ss ++ rest) = Ok (ss, rest).
+Proof. exact LayoutProofs.read_values_string_roundtrip. Qed.
+
+(* ContiguousDataReader._read_data_chunk: each object's path maps to exactly the
+   values encoded for it, in object order; the cursor is left after the chunk.
+   The count per object is what _get_channel_number_values gives for this chunk
+   (final-chunk override included). *)
+Theorem read_contig_chunk_roundtrip : forall e ci nchunks final ovs rest,
+    Forall (fun ov => vals_ok (chunk_nvals (fst ov) ci nchunks final) (fst ov) (snd ov)) ovs ->
+    NoDup (map (fun ov => so_path (fst ov)) ovs) ->
+    read_contig_chunk e (map fst ovs) ci nchunks final (enc_chunk e ovs ++ rest) []
+    = Ok (chunk_of ovs, rest).
+Proof. exact read_contig_chunk_roundtrip_final. Qed.
+
+Theorem chunk_of_lookup : forall ovs o vs,
+    NoDup (map (fun ov => so_path (fst ov)) ovs) -> In (o, vs) ovs ->
+    alookup (so_path o) (chunk_of ovs) = Some (CData vs).
+Proof. exact LayoutProofs.chunk_of_lookup. Qed.
+
+(* all chunks of a contiguous segment, one after another *)
+Theorem read_contig_chunks_roundtrip : forall e objs final css rest fuel,
+    NoDup (map so_path objs) ->
+    (forall k vss, nth_error css k = Some vss ->
+                   chunk_vals_ok objs (Z.of_nat (length css)) final k vss) ->
+    (length css <= fuel)%nat ->
+    read_chunks_loop fuel
+                     (fun ci c => read_contig_chunk e objs ci (Z.of_nat (length css)) final c [])
+                     0 (Z.of_nat (length css)) (enc_chunks e objs css ++ rest)
+    = Ok (map (fun vss => chunk_of (combine objs vss)) css, rest).
+Proof. exact read_contig_chunks_roundtrip_final. Qed.
+
+(* TdmsSegment.read_raw_data, contiguous layout, no truncation; the model's
+   fuel suffices when no chunk is empty (a segment whose chunk size is 0 has
+   nchunks = 0 in _calculate_chunks) *)
+Theorem read_segment_chunks_contig_roundtrip : forall s css rest,
+    seg_layout s = Ok LContig ->
+    sg_final s = None ->
+    sg_nchunks s = Z.of_nat (length css) ->
+    NoDup (map so_path (data_objs (sg_objs s))) ->
+    Forall (fun vss => Forall2 (fun o vs => vals_ok (so_nvals o) o vs) (data_objs (sg_objs s)) vss) css ->
+    Forall (fun vss => enc_chunk (toc_endian (sg_toc s)) (combine (data_objs (sg_objs s)) vss) <> []) css ->
+    read_segment_chunks s (enc_chunks (toc_endian (sg_toc s)) (data_objs (sg_objs s)) css ++ rest)
+    = Ok (map (fun vss => chunk_of (combine (data_objs (sg_objs s)) vss)) css, rest).
+Proof. exact LayoutProofs.read_segment_chunks_contig_roundtrip. Qed.
+
+(* InterleavedDataReader: width * nrows bytes are taken, the rest is left; ONE
+   chunk; object j gets column j of the encoded value matrix *)
+Theorem read_interleaved_roundtrip : forall e objs nchunks nv rows rest,
+    objs <> [] ->
+    Forall (fun o => so_nvals o = nv) objs ->
+    Forall (fun o => sized o <> None) objs ->
+    NoDup (map so_path objs) ->
+    Forall (row_ok objs) rows ->
+    nv * nchunks = Z.of_nat (length rows) ->
+    read_interleaved e objs nchunks (enc_rows e objs rows ++ rest) = Ok ([cols_of objs rows], rest).
+Proof. exact LayoutProofs.read_interleaved_roundtrip. Qed.
+
+Theorem cols_of_nth : forall objs rows j o,
+    nth_error objs j = Some o ->
+    nth_error (cols_of objs rows) j = Some (so_path o, CData (map (fun row => nth j row []) rows)).
+Proof. exact LayoutProofs.cols_of_nth. Qed.
+
+Theorem read_segment_chunks_interleaved_roundtrip : forall s nv rows rest,
+    seg_layout s = Ok LInterleaved ->
+    data_objs (sg_objs s) <> [] ->
+    Forall (fun o => so_nvals o = nv) (data_objs (sg_objs s)) ->
+    Forall (fun o => sized o <> None) (data_objs (sg_objs s)) ->
+    NoDup (map so_path (data_objs (sg_objs s))) ->
+    Forall (row_ok (data_objs (sg_objs s))) rows ->
+    nv * sg_nchunks s = Z.of_nat (length rows) ->
+    read_segment_chunks s (enc_rows (toc_endian (sg_toc s)) (data_objs (sg_objs s)) rows ++ rest)
+    = Ok ([cols_of (data_objs (sg_objs s)) rows], rest).
+Proof. exact LayoutProofs.read_segment_chunks_interleaved_roundtrip. Qed.
+
+(* concrete instances: big-endian int16 + string + complex128 in two contiguous
+   chunks; big-endian interleaved int16 / complex64 / bool, three rows.  (The
+   encoded bytes are spelled out in Proofs/LayoutProofs.v.) *)
+Section Examples.
+Import String.
+Local Open Scope string_scope.
+Example c01_contig_example :
+  let a := mkSobj (hex "2f2761") true 2 4 (Some 2) None in
+  let b := mkSobj (hex "2f2762") true 2 0 (Some T_STRING) None in
+  let c := mkSobj (hex "2f2763") true 1 16 (Some T_C128) None in
+  let css := [ [ [hex "0102"; hex "0304"]; [hex "6869"; hex "21"];
+                 [hex "000102030405060708090a0b0c0d0e0f"] ];
+               [ [hex "1112"; hex "1314"]; [[]; hex "7a7a7a"];
+                 [hex "101112131415161718191a1b1c1d1e1f"] ] ] in
+  let s := mkSeg 0 (2 + 4 + 8 + 64) 0 0 false [a; b; c] [] 2 None in
+  read_segment_chunks s (enc_chunks BE [a; b; c] css ++ hex "aa")%list =
+    Ok ([ [(hex "2f2761", CData [hex "0102"; hex "0304"]); (hex "2f2762", CData [hex "6869"; hex "21"]);
+           (hex "2f2763", CData [hex "000102030405060708090a0b0c0d0e0f"])];
+          [(hex "2f2761", CData [hex "1112"; hex "1314"]); (hex "2f2762", CData [[]; hex "7a7a7a"]);
+           (hex "2f2763", CData [hex "101112131415161718191a1b1c1d1e1f"])] ], hex "aa").
+Proof. exact (proj2 read_contig_chunks_example). Qed.
+
+Example c01_interleaved_example :
+  let a := mkSobj (hex "2f2761") true 3 6 (Some 2) None in
+  let b := mkSobj (hex "2f2762") true 3 24 (Some T_C64) None in
+  let c := mkSobj (hex "2f2763") true 3 3 (Some T_BOOL) None in
+  let rows := [ [hex "0102"; hex "1112131415161718"; hex "01"];
+                [hex "0304"; hex "2122232425262728"; hex "00"];
+                [hex "0506"; hex "3132333435363738"; hex "01"] ] in
+  let s := mkSeg 0 (2 + 4 + 8 + 32 + 64) 0 0 false [a; b; c] [] 1 None in
+  read_segment_chunks s (enc_rows BE [a; b; c] rows ++ hex "bbcc")%list =
+    Ok ([ [(hex "2f2761", CData [hex "0102"; hex "0304"; hex "0506"]);
+           (hex "2f2762", CData [hex "1112131415161718"; hex "2122232425262728"; hex "3132333435363738"]);
+           (hex "2f2763", CData [hex "01"; hex "00"; hex "01"])] ], hex "bbcc").
+Proof. exact (proj2 read_interleaved_example). Qed.
+End Examples.
+
+Print Assumptions value_canon_store.
+Print Assumptions value_canon_length.
+Print Assumptions items_roundtrip_tail.
+Print Assumptions read_values_fixed_roundtrip.
+Print Assumptions read_values_timestamp_roundtrip.
+Print Assumptions read_values_string_roundtrip.
+Print Assumptions read_contig_chunk_roundtrip.
+Print Assumptions chunk_of_lookup.
+Print Assumptions read_contig_chunks_roundtrip.
+Print Assumptions read_segment_chunks_contig_roundtrip.
+Print Assumptions read_interleaved_roundtrip.
+Print Assumptions cols_of_nth.
+Print Assumptions read_segment_chunks_interleaved_roundtrip.
+Print Assumptions c01_contig_example.
+Print Assumptions c01_interleaved_example.
+
